@@ -18,6 +18,7 @@ use std::collections::HashMap;
 use std::fmt::Write as _;
 use std::io::Write;
 use std::num::NonZeroUsize;
+use std::path::{Path, PathBuf};
 use std::panic::{catch_unwind, AssertUnwindSafe};
 use std::sync::atomic::{AtomicBool, AtomicUsize, Ordering};
 use std::sync::{Arc, Mutex};
@@ -60,6 +61,14 @@ pub struct BuildOpts {
     pub cancel: Option<usize>,
     pub threads: usize,
     pub seed: u64,
+    /// `tmpdir=missing|readonly`: point arroy at an unusable temporary directory first
+    pub tmpdir: Option<TmpFault>,
+}
+
+#[derive(Clone, Copy, Debug, PartialEq, Eq)]
+pub enum TmpFault {
+    Missing,
+    ReadOnly,
 }
 
 #[derive(Clone, Debug)]
@@ -101,6 +110,8 @@ pub enum Op {
     Dump,
     Note(String),
     ExpectRecovered,
+    /// `index <index> <metric> <dims>`: declares how the raw pairs of an index are decoded
+    Index(W),
 }
 
 fn push_w(out: &mut String, w: &W) {
@@ -151,6 +162,11 @@ impl Op {
                 out.push_str(" cancel=");
                 push_opt(out, o.cancel);
                 let _ = write!(out, " threads={} seed={}", o.threads, o.seed);
+                match o.tmpdir {
+                    None => {}
+                    Some(TmpFault::Missing) => out.push_str(" tmpdir=missing"),
+                    Some(TmpFault::ReadOnly) => out.push_str(" tmpdir=readonly"),
+                }
             }
             Op::NeedBuild(w) => simple(out, "needbuild", w),
             Op::Open(w) => simple(out, "open", w),
@@ -206,6 +222,7 @@ impl Op {
                 out.push_str(t);
             }
             Op::ExpectRecovered => out.push_str("expect-recovered"),
+            Op::Index(w) => simple(out, "index", w),
         }
     }
 
@@ -244,6 +261,7 @@ impl Op {
             "abort" => Op::Abort,
             "dump" => Op::Dump,
             "expect-recovered" => Op::ExpectRecovered,
+            "index" => Op::Index(w_of(&rest)?),
             "note" => Op::Note(line.strip_prefix("note").unwrap().trim_start().to_string()),
             "add" => Op::Add(w_of(&rest)?, id_of(&rest, 3)?, parse_vec(arg(&rest, 4)?)?),
             "append" => Op::Append(w_of(&rest)?, id_of(&rest, 3)?, parse_vec(arg(&rest, 4)?)?),
@@ -262,6 +280,12 @@ impl Op {
                     cancel: parse_opt(kv(&rest, 6, "cancel")?)?,
                     threads: kv(&rest, 7, "threads")?.parse().map_err(|e| format!("threads: {e}"))?,
                     seed: kv(&rest, 8, "seed")?.parse().map_err(|e| format!("seed: {e}"))?,
+                    tmpdir: match rest.get(9).copied() {
+                        None => None,
+                        Some("tmpdir=missing") => Some(TmpFault::Missing),
+                        Some("tmpdir=readonly") => Some(TmpFault::ReadOnly),
+                        Some(t) => return Err(format!("unexpected build argument {t}")),
+                    },
                 },
             ),
             "needbuild" => Op::NeedBuild(w_of(&rest)?),
@@ -497,31 +521,69 @@ fn op_err_res(e: &OpErr) -> String {
 // ---------------------------------------------------------------------------------------
 // the environment of a case
 
-/// A fresh LMDB environment in a temporary directory, with the single unnamed database
-/// created and committed.
+/// An LMDB environment with the single unnamed database (created and committed when the
+/// environment is fresh). Layout of a harness-owned case directory: `<root>/db` (the
+/// environment), `<root>/tmp` (arroy's temporary files when `Executor::tmpdir` is set),
+/// `<root>/ro` (a read-only directory for the `tmpdir=readonly` fault).
 pub struct CaseEnv {
     pub env: heed::Env,
     pub db: arroy::Database<Euclidean>,
     pub mapsize: usize,
-    _dir: tempfile::TempDir,
+    pub env_path: PathBuf,
+    pub tmp_path: PathBuf,
+    pub root_path: PathBuf,
+    _root: Option<tempfile::TempDir>,
 }
 
 impl CaseEnv {
+    /// A fresh environment in a fresh temporary directory (removed on drop).
     pub fn new(mapsize: usize) -> Result<CaseEnv, String> {
-        let dir = tempfile::tempdir().map_err(|e| format!("tempdir: {e}"))?;
-        Self::open_in(dir, mapsize)
+        let root = tempfile::tempdir().map_err(|e| format!("tempdir: {e}"))?;
+        let mut case = Self::create_in(root.path(), mapsize)?;
+        case._root = Some(root);
+        Ok(case)
     }
 
-    fn open_in(dir: tempfile::TempDir, mapsize: usize) -> Result<CaseEnv, String> {
-        let env = unsafe { heed::EnvOpenOptions::new().map_size(mapsize).open(dir.path()) }
+    /// A fresh environment under `root` (which the caller owns).
+    pub fn create_in(root: &Path, mapsize: usize) -> Result<CaseEnv, String> {
+        let env_path = root.join("db");
+        let tmp_path = root.join("tmp");
+        std::fs::create_dir_all(&env_path).map_err(|e| format!("{}: {e}", env_path.display()))?;
+        std::fs::create_dir_all(&tmp_path).map_err(|e| format!("{}: {e}", tmp_path.display()))?;
+        let env = unsafe { heed::EnvOpenOptions::new().map_size(mapsize).open(&env_path) }
             .map_err(|e| format!("opening the environment: {e}"))?;
         let mut wtxn = env.write_txn().map_err(|e| format!("write_txn: {e}"))?;
         let db: arroy::Database<Euclidean> =
             env.create_database(&mut wtxn, None).map_err(|e| format!("create_database: {e}"))?;
         wtxn.commit().map_err(|e| format!("commit: {e}"))?;
-        Ok(CaseEnv { env, db, mapsize, _dir: dir })
+        Ok(CaseEnv { env, db, mapsize, env_path, tmp_path, root_path: root.to_path_buf(), _root: None })
+    }
+
+    /// Reopens the environment of `create_in(root, ..)` (after a crash) without writing.
+    pub fn reopen_in(root: &Path, mapsize: usize) -> Result<CaseEnv, String> {
+        let env_path = root.join("db");
+        let tmp_path = root.join("tmp");
+        let env = unsafe { heed::EnvOpenOptions::new().map_size(mapsize).open(&env_path) }
+            .map_err(|e| format!("reopening the environment: {e}"))?;
+        let rtxn = env.read_txn().map_err(|e| format!("read_txn: {e}"))?;
+        let db: arroy::Database<Euclidean> = env
+            .open_database(&rtxn, None)
+            .map_err(|e| format!("open_database: {e}"))?
+            .ok_or("the unnamed database does not exist")?;
+        drop(rtxn);
+        Ok(CaseEnv { env, db, mapsize, env_path, tmp_path, root_path: root.to_path_buf(), _root: None })
     }
 }
+
+/// What a scenario can observe / do around the ops of an executor.
+pub enum HookEvent<'x> {
+    Before(&'x Op),
+    After(&'x Op, Outcome),
+}
+
+pub type OpHook<'w> = Box<dyn FnMut(HookEvent<'_>) + 'w>;
+/// Called by the cancellation callback of the builds with the number of the call (from 0).
+pub type PollHook = Arc<dyn Fn(usize) + Send + Sync>;
 
 /// What the generator needs to know about the answer of an op.
 #[derive(Clone, Copy, Debug, PartialEq, Eq)]
@@ -545,6 +607,10 @@ pub struct Executor<'a, 'w> {
     pub last_res: String,
     /// Polls of the last build.
     pub last_polls: usize,
+    /// When set, the builds call `Writer::set_tmpdir` with it.
+    pub tmpdir: Option<PathBuf>,
+    pub op_hook: Option<OpHook<'w>>,
+    pub poll_hook: Option<PollHook>,
 }
 
 type OpResult = Result<String, OpErr>;
@@ -561,6 +627,9 @@ impl<'a, 'w> Executor<'a, 'w> {
             steps: 0,
             last_res: String::new(),
             last_polls: 0,
+            tmpdir: None,
+            op_hook: None,
+            poll_hook: None,
         }
     }
 
@@ -569,8 +638,17 @@ impl<'a, 'w> Executor<'a, 'w> {
     }
 
     pub fn raw_line(&mut self, text: &str) {
-        let _ = self.out.write_all(text.as_bytes());
-        let _ = self.out.write_all(b"\n");
+        let mut line = std::mem::take(&mut self.line);
+        line.clear();
+        line.push_str(text);
+        line.push('\n');
+        let _ = self.out.write_all(line.as_bytes());
+        line.clear();
+        self.line = line;
+    }
+
+    pub fn env(&self) -> &'a CaseEnv {
+        self.case
     }
 
     /// Aborts the open transaction, if any, without writing anything (end of a case).
@@ -606,14 +684,32 @@ impl<'a, 'w> Executor<'a, 'w> {
         if self.dead {
             return Outcome::Panic;
         }
-        self.steps += 1;
-        self.line.clear();
+        if let Some(hook) = self.op_hook.as_mut() {
+            hook(HookEvent::Before(op));
+        }
+        let outcome = self.exec_inner(op);
+        if let Some(hook) = self.op_hook.as_mut() {
+            hook(HookEvent::After(op, outcome));
+        }
+        outcome
+    }
+
+    fn write_op_line(&mut self, op: &Op) {
         let mut line = std::mem::take(&mut self.line);
+        line.clear();
         op.write_line(&mut line);
         line.push('\n');
         let _ = self.out.write_all(line.as_bytes());
         line.clear();
         self.line = line;
+    }
+
+    fn exec_inner(&mut self, op: &Op) -> Outcome {
+        self.steps += 1;
+        // the `commit` record is written once the call has returned (see `crash`)
+        if !matches!(op, Op::Commit) {
+            self.write_op_line(op);
+        }
 
         match op {
             // records without a `res` line
@@ -625,13 +721,16 @@ impl<'a, 'w> Executor<'a, 'w> {
                 }
                 return Outcome::Ok;
             }
-            Op::ExpectRecovered => return Outcome::Ok,
+            Op::ExpectRecovered | Op::Index(_) => return Outcome::Ok,
             Op::Begin | Op::Commit | Op::Abort => {
                 // PROTOCOL.md gives no `res` line to the transaction records; a failure
                 // (e.g. MDB_MAP_FULL at commit) is reported as a note + res line anyway.
                 IN_OP.store(true, Ordering::SeqCst);
                 let r = catch_unwind(AssertUnwindSafe(|| self.txn_op(op)));
                 IN_OP.store(false, Ordering::SeqCst);
+                if matches!(op, Op::Commit) {
+                    self.write_op_line(op);
+                }
                 return match r {
                     Ok(Ok(())) => Outcome::Ok,
                     Ok(Err(e)) => {
@@ -711,9 +810,14 @@ impl<'a, 'w> Executor<'a, 'w> {
     fn finish_res(&mut self, text: &str) {
         self.last_res.clear();
         self.last_res.push_str(text);
-        let _ = self.out.write_all(b"res ");
-        let _ = self.out.write_all(text.as_bytes());
-        let _ = self.out.write_all(b"\n");
+        let mut line = std::mem::take(&mut self.line);
+        line.clear();
+        line.push_str("res ");
+        line.push_str(text);
+        line.push('\n');
+        let _ = self.out.write_all(line.as_bytes());
+        line.clear();
+        self.line = line;
     }
 
     fn panicked(&mut self, payload: Box<dyn std::any::Any + Send>) -> Outcome {
@@ -846,6 +950,7 @@ impl<'a, 'w> Executor<'a, 'w> {
             | Op::Dump
             | Op::Note(_)
             | Op::ExpectRecovered
+            | Op::Index(_)
             | Op::Build(..) => unreachable!(),
         }
     }
@@ -993,12 +1098,25 @@ impl<'a, 'w> Executor<'a, 'w> {
             Some(wtxn) => wtxn,
             None => return (Err(Ok(other("notxn"))), Vec::new(), false),
         };
-        let writer = Writer::<D>::new(db, w.index, w.dims);
+        let mut writer = Writer::<D>::new(db, w.index, w.dims);
+        match o.tmpdir {
+            Some(TmpFault::Missing) => writer.set_tmpdir(self.case.root_path.join("missing").join("tmp")),
+            Some(TmpFault::ReadOnly) => writer.set_tmpdir(readonly_dir(self.case)),
+            None => {
+                if let Some(dir) = self.tmpdir.as_ref() {
+                    writer.set_tmpdir(dir.clone());
+                }
+            }
+        }
+        let poll_hook = self.poll_hook.clone();
         let calls = AtomicUsize::new(0);
         let limit_hit = AtomicBool::new(false);
         let cancel_at = o.cancel;
         let cancel = || {
             let n = calls.fetch_add(1, Ordering::SeqCst);
+            if let Some(hook) = poll_hook.as_ref() {
+                hook(n);
+            }
             if n >= poll_limit {
                 limit_hit.store(true, Ordering::SeqCst);
                 return true;
@@ -1041,6 +1159,27 @@ impl<'a, 'w> Executor<'a, 'w> {
             Err(payload) => Err(Err(BuildFailure::Panic(payload))),
         };
         (res, events, hit)
+    }
+}
+
+/// The directory of the `tmpdir=readonly` fault: `<root>/ro`, mode 0555.
+pub fn readonly_dir(case: &CaseEnv) -> PathBuf {
+    use std::os::unix::fs::PermissionsExt;
+    let dir = case.root_path.join("ro");
+    let _ = std::fs::create_dir_all(&dir);
+    let _ = std::fs::set_permissions(&dir, std::fs::Permissions::from_mode(0o555));
+    dir
+}
+
+/// Whether a file can be created in the read-only directory anyway (running as root).
+pub fn readonly_dir_is_writable(case: &CaseEnv) -> bool {
+    let probe = readonly_dir(case).join("probe");
+    match std::fs::File::create(&probe) {
+        Ok(_) => {
+            let _ = std::fs::remove_file(&probe);
+            true
+        }
+        Err(_) => false,
     }
 }
 
